@@ -195,6 +195,20 @@ func (t *T) RunUntilCrash(k int, f func()) bool {
 // the handler directly; natively nil — harnesses send a real request instead).
 func (t *T) Served(addr string) http.Handler { return nil }
 
+// NextTimer lets the earliest pending timer fire (engine: the model clock
+// jumps to its deadline) and waits until everything is blocked again. Natively
+// it waits a little — or, in a real-time replay (VERIF_REPLAY_SLOW), as long as
+// the retry interval of the code under test (10 s) takes.
+func (t *T) NextTimer() bool {
+	if os.Getenv("VERIF_REPLAY_SLOW") != "" {
+		time.Sleep(11 * time.Second)
+	} else {
+		time.Sleep(50 * time.Millisecond)
+	}
+	t.Quiesce()
+	return true
+}
+
 // QuiesceTimers is Quiesce with a bound on the number of timers that may fire
 // while waiting (engine; natively a plain Quiesce).
 func (t *T) QuiesceTimers(n int) { t.Quiesce() }
@@ -202,6 +216,12 @@ func (t *T) QuiesceTimers(n int) { t.Quiesce() }
 // YieldOnFS: a goroutine (other than the harness) lets every other runnable
 // goroutine run after each of its file-system calls (engine only).
 func (t *T) YieldOnFS(on bool) {}
+
+// DelayAtFS(k): the goroutine (other than the harness) that makes the k-th
+// file-system call from now on is suspended right after that call until no
+// other goroutine can run — one preemption at a chosen point, so that a
+// harness can decide over k (engine only; k = 0 switches it off).
+func (t *T) DelayAtFS(k int) {}
 
 // YieldOnLock selects the engine's third deterministic schedule: a goroutine
 // (other than the harness) that is about to take a mutex lets every other
